@@ -155,6 +155,8 @@ def ann_type(a, classes) -> object:
     if isinstance(a, ast.Subscript) and isinstance(a.value, ast.Name) and a.value.id == "type" and isinstance(a.slice, ast.Name) \
             and a.slice.id in classes and getattr(classes[a.slice.id], "family", None) is not None:
         return ("cls", classes[a.slice.id].name)
+    if isinstance(a, ast.Subscript) and isinstance(a.value, ast.Name) and a.value.id == "Generator":
+        return ("gen", ann_type(a.slice, classes))
     if isinstance(a, ast.Subscript) and isinstance(a.value, ast.Name) and a.value.id in ("Iterator", "Iterable"):
         return ("iter", ann_type(a.slice, classes))
     if isinstance(a, ast.Subscript) and isinstance(a.value, ast.Name) and a.value.id == "set":
@@ -384,10 +386,22 @@ def _add_dataclass(self, node: ast.ClassDef):
 Translator.add_dataclass = _add_dataclass
 
 
+def generator_parts(ret, muts: list, env: dict):
+    """A generator (`-> Generator[Y]`): translated as returning None with the list of the values it yields (ys__) as one
+    more result; the list is threaded like an in/out parameter.  (What is NOT modelled: that a generator runs lazily,
+    interleaved with its consumer -- only the sequence of yields, the final state and the exception, if any.)"""
+    if isinstance(ret, tuple) and ret[0] == "gen":
+        yt = ("seq", ret[1])
+        return "none", muts + [("ys__", yt)], {**env, "ys__": yt}, "let ys__ := [] in\n"
+    return ret, muts, env, ""
+
+
 def emit_function(tr: Translator, name: str, body_stmts: list, params: list, ret) -> None:
     muts = [(p, t) for p, t in params if is_mutable(t)]
+    env0 = {p: t for p, t in params}
+    ret, muts, env0, pre = generator_parts(ret, muts, env0)
     mode = FuncMode(tr, ret, muts)
-    body = mode.stmts(body_stmts, {p: t for p, t in params})
+    body = pre + mode.stmts(body_stmts, env0)
     ps = " ".join(f"({mangle(p)} : {coq_type(t)})" for p, t in params)
     rt = f"outcome {coq_type(ret)}" + "".join(f" * {coq_type(t)}" for _, t in muts)
     tr.out.append(f"Definition {name} {ps} : {rt} :=\n{body}.")
@@ -496,6 +510,24 @@ class Mode:
                 return self.expr(s.value.args[0], env, k_item)
         if isinstance(s, ast.Expr) and isinstance(s.value, ast.Call):
             return self.expr(s.value, env, lambda v, t: self.stmts(rest, env))
+        # x := e used as a test / value:  `if frame := f(): ...`  ==  `frame = f(); if frame: ...`
+        if isinstance(s, ast.If) and isinstance(s.test, ast.NamedExpr) and isinstance(s.test.target, ast.Name):
+            a = ast.Assign(targets=[ast.Name(id=s.test.target.id, ctx=ast.Store())], value=s.test.value)
+            i2 = ast.If(test=ast.Name(id=s.test.target.id, ctx=ast.Load()), body=s.body, orelse=s.orelse)
+            for st in (a, i2):
+                ast.copy_location(st, s)
+                ast.fix_missing_locations(st)
+            return self.stmts([a, i2] + rest, env)
+        # yield e  (generators: the values yielded so far are the list ys__)
+        if isinstance(s, ast.Expr) and isinstance(s.value, ast.Yield) and s.value.value is not None:
+            if "ys__" not in env:
+                bad(s, "yield outside a generator")
+            return self.expr(s.value.value, env, lambda v, t: (
+                f"let ys__ := (ys__ ++ [{self.coerce(v, t, env['ys__'][1], s)}]) in\n{self.stmts(rest, env)}"))
+        # for x in <list>: a local fixpoint over the list; the state it carries = self, the in/out parameters, the locals the
+        # body re-binds (and the yields); `return` / an exception inside the body leave the loop with that state
+        if isinstance(s, ast.For) and not (isinstance(s.iter, ast.Tuple) and all(isinstance(c, ast.Constant) for c in s.iter.elts)):
+            return self.for_loop(s, rest, env)
         # for x in c1, c2, ..: over a tuple of constants -- unrolled
         if isinstance(s, ast.For):
             if s.orelse or not isinstance(s.target, ast.Name) or not isinstance(s.iter, ast.Tuple) \
@@ -545,13 +577,15 @@ class Mode:
             first = s.test.values[0] if isinstance(s.test, ast.BoolOp) and isinstance(s.test.op, ast.And) else s.test
             if isinstance(first, ast.Name) and env.get(first.id) == "none":
                 return self.stmts(s.orelse + rest, env)  # this copy of the continuation knows the variable holds None
-            if isinstance(first, ast.Name) and isinstance(env.get(first.id), tuple) and env[first.id][0] == "opt" and env[first.id][1] in ("int", "str"):
+            if isinstance(first, ast.Name) and isinstance(env.get(first.id), tuple) and env[first.id][0] == "opt" and (
+                    env[first.id][1] in ("int", "str") or (isinstance(env[first.id][1], tuple) and env[first.id][1][0] in ("pb", "obj"))):
                 # a truthy optional is not None: inside the test's remaining operands and in the body the variable
                 # has its inner type (what mypy calls narrowing); in the else branch it keeps the optional type
                 x, inner_t = first.id, env[first.id][1]
                 env_in = dict(env)
                 env_in[x] = inner_t
-                truthy = f"(negb ({mangle(x)} =? 0))" if inner_t == "int" else f"(negb (str_is_empty {mangle(x)}))"
+                # (a protobuf message or an object of a translated class has no __bool__ / __len__: always true)
+                truthy = f"(negb ({mangle(x)} =? 0))" if inner_t == "int" else f"(negb (str_is_empty {mangle(x)}))" if inner_t == "str" else "true"
                 else_code = self.stmts(s.orelse + rest, dict(env))
                 # inside `Some x =>` the Coq variable holds the inner value: give the optional back to the else branch
                 else_some = f"let {mangle(x)} := Some {mangle(x)} in\n{else_code}"
@@ -751,6 +785,11 @@ class Mode:
                     return self.expr(val, env, k_val)
                 return self.expr(tgt.slice, env, k_idx)
             bad(s, "assignment target")
+        if isinstance(s, (ast.Break, ast.Continue)):
+            ctl = getattr(self, "loop_ctl", None)
+            if ctl is None:
+                bad(s, "break / continue outside a translated loop")
+            return ctl["break" if isinstance(s, ast.Break) else "continue"]
         if isinstance(s, ast.Pass):
             return self.stmts(rest, env)
         if isinstance(s, ast.AugAssign) and isinstance(s.op, (ast.Add, ast.Sub)) and isinstance(s.target, (ast.Name, ast.Attribute)):
@@ -760,6 +799,70 @@ class Mode:
             ast.fix_missing_locations(eq)
             return self.stmts([eq] + rest, env)
         bad(s, "statement")
+
+    def state_vars(self, env, body) -> list[tuple[str, object]]:
+        """The variables a loop carries from one iteration to the next (besides self and the in/out parameters)."""
+        assigned = set()
+        for st in body:
+            for n in ast.walk(st):
+                if isinstance(n, ast.Name) and isinstance(n.ctx, ast.Store):
+                    assigned.add(n.id)
+                # in-place changes of local containers: xs.append(..) etc.
+                if isinstance(n, ast.Call) and isinstance(n.func, ast.Attribute) and isinstance(n.func.value, ast.Name) \
+                        and n.func.attr in ("append", "extend", "add", "clear", "CopyFrom"):
+                    assigned.add(n.func.value.id)
+                if isinstance(n, ast.Attribute) and isinstance(n.ctx, ast.Store) and isinstance(n.value, ast.Name):
+                    assigned.add(n.value.id)
+                if isinstance(n, ast.Subscript) and isinstance(n.ctx, ast.Store) and isinstance(n.value, ast.Name):
+                    assigned.add(n.value.id)
+        muts = {p for p, _ in getattr(self, "muts", [])}
+        return [(v, t) for v, t in env.items() if not v.startswith("__") and t not in ("errmsg",) and (v in assigned or v == "ys__") and v not in muts and v != "self"]
+
+    def for_loop(self, s, rest, env) -> str:
+        if s.orelse or not isinstance(s.target, ast.Name):
+            bad(s, "for loop shape")
+        tr = self.tr
+        n = tr.gensym("loop")
+        carried = self.state_vars(env, s.body)
+        has_self = isinstance(self, MethodMode)
+        muts = list(getattr(self, "muts", []))
+        muts = [(p, t) for p, t in muts if p != "ys__"] + ([("ys__", env["ys__"])] if "ys__" in env and ("ys__", env["ys__"]) in muts else [])
+        names = (["self"] if has_self else []) + [mangle(p) for p, _ in muts] + [mangle(v) for v, _ in carried if v not in {p for p, _ in muts}]
+        carried = [(v, t) for v, t in carried if v not in {p for p, _ in muts}]
+        types = ([self.info.name] if has_self else []) + [coq_type(t) for _, t in muts] + [coq_type(t) for _, t in carried]
+        if not names:
+            names, types = ["u__"], ["unit"]
+        st_pat = "'(" + ", ".join(names) + ")" if len(names) > 1 else names[0]
+        st_val = "(" + ", ".join(names) + ")" if len(names) > 1 else names[0]
+        st_ty = "(" + " * ".join(types) + ")" if len(types) > 1 else types[0]
+        ret_ty = coq_type(self.ret)
+
+        def k_iter(xs, xt):
+            if not (isinstance(xt, tuple) and xt[0] in ("seq", "iter", "set")):
+                bad(s, f"iteration over {xt}")
+            et = xt[1]
+            x = mangle(s.target.id)
+            saved = (self.ret_val, self.fall_off, self.on_exn, getattr(self, "loop_ctl", None))
+            env_b = dict(env)
+            env_b[s.target.id] = et
+            self.ret_val = lambda v, t: f"LReturn {self.coerce(v, t, self.ret, s)} {st_val}"
+            self.fall_off = lambda: f"{n} xs__ {st_val}"
+            self.on_exn = lambda e: f"LRaise {e} {st_val}"
+            self.loop_ctl = {"break": f"LContinue {st_val}", "continue": f"{n} xs__ {st_val}"}
+            try:
+                body = self.stmts(list(s.body), env_b)
+            finally:
+                self.ret_val, self.fall_off, self.on_exn, self.loop_ctl = saved
+            bind = f"let {st_pat} := st__ in\n" if names != ["u__"] else ""
+            after_ok = self.stmts(rest, env)
+            rv, ev = tr.gensym("rv"), tr.gensym("e")
+            after_ret = self.ret_val(rv, self.ret)
+            after_exn = self.on_exn(ev)
+            return (f"let {n} := fix {n} (xs__ : list {coq_type(et)}) (st__ : {st_ty}) {{struct xs__}} : loopres {ret_ty} {st_ty} :=\n"
+                    f"match xs__ with\n| [] => LContinue st__\n| {x} :: xs__ =>\n{bind}{body}\nend in\n"
+                    f"match {n} {xs} {st_val} with\n| LContinue st__ =>\n{bind}{after_ok}\n| LReturn {rv} st__ =>\n{bind}{after_ret}\n"
+                    f"| LRaise {ev} st__ =>\n{bind}{after_exn}\nend")
+        return self.expr(s.iter, env, k_iter)
 
     def try_body(self, body, rest, env, outer):
         # statements of the try body see the handler; `rest` must not.  `rest` is reached only by falling
@@ -810,6 +913,8 @@ class Mode:
             if t == "str":
                 return k(f"(negb (str_is_empty {v}))")
             if isinstance(t, tuple) and t[0] == "opt":
+                if not (t[1] in ("int", "str", "bool") or (isinstance(t[1], tuple) and t[1][0] in ("pb", "obj"))):
+                    bad(e, f"truth value of {t}")
                 inner = {"int": "negb (x_ =? 0)", "str": "negb (str_is_empty x_)", "bool": "x_"}.get(t[1], "true")
                 return k(f"(match {v} with Some x_ => {inner} | None => false end)")
             if isinstance(t, tuple) and t[0] in ("seq", "set"):
@@ -1315,6 +1420,21 @@ class Mode:
                     and isinstance(e.keywords[0].value, ast.Constant) and e.keywords[0].value.value is False):
                 return (f"match od_popitem_first {self.read_field(fld)} with\n| Exn {ex} => {self.on_exn(ex)}\n"
                         f"| Val ({x}, {o}) => {self.write_field(fld, o, 'od', lambda: k(x, ('pair', 'str', 'int')))}\nend")
+            if isinstance(ft, tuple) and ft[0] == "obj" and f.attr in tr.classes[ft[1]].inout:
+                # a method of the owned object that also changes messages / iterators passed to it (local names)
+                sub = tr.classes[ft[1]]
+                params, ret = sub.methods[f.attr]
+                by_name = {kw.arg: kw.value for kw in e.keywords}
+                actuals = [e.args[i] if i < len(e.args) else by_name.get(p) for i, (p, _) in enumerate(params)]
+                if any(a is None for a in actuals) or len(e.args) + len(e.keywords) != len(params):
+                    bad(e, "arguments")
+                muts_a = [a for a, (_, pt) in zip(actuals, params) if is_mutable(pt)]
+                if not all(isinstance(a, ast.Name) and a.id in env for a in muts_a) or len({a.id for a in muts_a}) != len(muts_a):
+                    bad(e, "a message passed to be changed in place must be a local name")
+                outs = [mangle(a.id) for a in muts_a]
+                return self.args(e, params, env, lambda a: (
+                    f"let '({', '.join([r, o] + outs)}) := {sub.name}_{f.attr} {' '.join(a)} {self.read_field(fld)} in\n"
+                    + self.write_field(fld, o, ft, lambda: f"match {r} with\n| Exn {ex} => {self.on_exn(ex)}\n| Val {x} =>\n{k('tt' if ret == 'none' else x, ret)}\nend")))
             if isinstance(ft, tuple) and ft[0] == "obj":
                 sub = tr.classes[ft[1]]
                 if f.attr not in sub.methods or f.attr == "__init__":
@@ -1480,7 +1600,7 @@ UNITS = {
                         "FLOW_DISPATCH", "flow_for_type"]},
     "streams": {"src": "pyjelly/serialize/streams.py", "ctx": True, "uses": ["lookup_enc", "options", "encode", "flows"], "gen": "StreamsGen",
                 "items": ["SerializerOptions",
-                          {"family": "Stream", "classes": ["Stream", "TripleStream", "QuadStream", "GraphStream"], "skip": ["graph"]}]},
+                          {"family": "Stream", "classes": ["Stream", "TripleStream", "QuadStream", "GraphStream"]}]},
     "encode": {"src": "pyjelly/serialize/encode.py", "ctx": True, "uses": ["lookup_enc", "options"], "gen": "EncodeGen",
                "items": ["split_iri", ("TermEncoder", ["__init__", "start_statement", "_entry_index", "encode_iri_indices", "encode_iri",
                                                        "encode_default_graph", "encode_literal"], ["encode_spo", "encode_graph"]),
